@@ -484,13 +484,13 @@ impl<'a> Trainer<'a> {
                 }) => {
                     let len = ngram.len();
                     let pos = usize::try_from(
-                        isize::from(self.char_window_size) - isize::try_from(len)? - rel_position,
+                        isize::from(self.type_window_size) - isize::try_from(len)? - rel_position,
                     )
                     .unwrap();
                     if let Some(weights) = type_ngram_weights.get_mut(ngram) {
                         weights[pos] = weight;
                     } else {
-                        let mut weights = vec![0; usize::from(self.char_window_size) * 2 - len + 1];
+                        let mut weights = vec![0; usize::from(self.type_window_size) * 2 - len + 1];
                         weights[pos] = weight;
                         type_ngram_weights.insert(ngram.to_vec(), weights);
                     }
